@@ -74,7 +74,6 @@ def acceptable(codes, early, allow_running=False):
             cands.append(L[:i] + L[i + 1:])
     for rest, idx in zip(cands, [i for i, c in enumerate(L) if c == "226"]):
         ok_shape = (rest == [] or (len(rest) == 1 and rest[0][0] in "45")
-                    or (allow_running and early and len(rest) == 1 and rest[0][0] == "1" and idx == 0)
                     or (len(rest) == 2 and rest[0][0] == "1" and rest[1][0] in "245"))
         if not ok_shape:
             continue
@@ -82,8 +81,6 @@ def acceptable(codes, early, allow_running=False):
             return None          # ABOR answered last: nothing (left) to abort
         if early and len(rest) == 1 and rest[0][0] in "45":
             return None          # the transfer was refused anyway; the two answers come from concurrent handlers
-        if early and allow_running and len(rest) == 1:
-            return None
     return f"unexpected reply sequence {L}"
 
 
@@ -288,9 +285,10 @@ def _work(item):
     case, bound, kinds = item
     part = report.Partial()
     try:
-        for ch, res in explore(lambda c: run_abort(case, c), bound, kinds=kinds, max_exec=6000):
+        cap = 6000 if bound <= 1 else 60000
+        for ch, res in explore(lambda c: run_abort(case, c), bound, kinds=kinds, max_exec=cap):
             if ch is None:
-                part.caps.append({"case": case, "cap": 6000})
+                part.caps.append({"case": case, "cap": cap})
                 break
             part.evaluations += 1
             part.traces += 1
